@@ -107,3 +107,26 @@ func init() {
 		}
 	}
 }
+
+// hiccups watches how late this process's own timers fire while a case runs: the returned function stops the watch and
+// gives the longest delay seen (a release/inconclusive decision aid for oracles that rest on a few milliseconds).
+func hiccups() func() time.Duration {
+	stop := make(chan struct{})
+	out := make(chan time.Duration, 1)
+	go func() {
+		var worst time.Duration
+		for {
+			t0 := time.Now()
+			select {
+			case <-stop:
+				out <- worst
+				return
+			case <-time.After(time.Millisecond):
+			}
+			if d := time.Since(t0) - time.Millisecond; d > worst {
+				worst = d
+			}
+		}
+	}()
+	return func() time.Duration { close(stop); return <-out }
+}
